@@ -29,7 +29,7 @@ Fixpoint events_ok_b (imported : list N) (evs : list event) : bool * list N :=
    importer.  Checked on the observables: such a result earns its sender a reputation change. *)
 Definition linked_true (a b : bdata) : bool :=
   match d_header a, d_header b with
-  | Some ha, Some hb => (h_number ha + 1 =? h_number hb) && (h_hash ha =? h_parent hb)
+  | Some ha, Some hb => (add64 (h_number ha) 1 =? h_number hb) && (h_hash ha =? h_parent hb)
   | _, _ => false
   end.
 Fixpoint true_chain_from (prev : bdata) (l : list bdata) : bool :=
@@ -74,6 +74,18 @@ Fixpoint history_ok_b (imported : list N) (steps : list step)
       ok && rejections_ok_b rs acc && history_ok_b imported' sr orr
     | _ => history_ok_b imported sr ((evs, acc) :: orr)
     end
+  end.
+
+(* what a run of the model shows of each Process step: the importer's events and the decisions
+   of validateResults *)
+Fixpoint observe (bad : list N) (steps : list step) (outs : list (option presult))
+  : list (list event * list bool) :=
+  match steps, outs with
+  | SProcess rs :: sr, Some r :: orr =>
+    (pr_events r, match accepted true true true bad rs with Some l => l | None => [] end)
+    :: observe bad sr orr
+  | _ :: sr, _ :: orr => observe bad sr orr
+  | _, _ => []
   end.
 
 (* the histories the theorems are about: announced headers carry their own hash (newIncompleteBlock
